@@ -65,7 +65,7 @@ func (f *Plusp) Call(s *slip.Scope, args slip.List, depth int) slip.Object {
 			return slip.True
 		}
 	case *slip.Ratio:
-		if 0.0 < ta.RealValue() {
+		if 0 < (*big.Rat)(ta).Sign() {
 			return slip.True
 		}
 	default:
